@@ -1,19 +1,19 @@
 SPECIFICATION Spec
 CONSTANTS
-  Cfg <- CfgT
+  Cfg <- CfgA
   Kinds = {"scion"}
-  Shapes <- ShapesTableQ
-  Vias = {0, 21, 1, 2, 3, 4, 5}
+  Shapes <- ShapesAlert
+  Vias = {0, 1, 2, 3, 4}
   SrcDom = {"L", "F"}
-  DstDom = {"F"}
+  DstDom = {"L", "F"}
   Faults = {"none"}
-  L4Dom = {"udp"}
-  InSideDom = {0, 1, 2, 3, 4, 5, 21}
-  EgSideDom = {0, 11, 12, 13, 14, 15, 21, 22, 23, 24, 25, 999}
-  PeerDom = {FALSE, TRUE}
+  L4Dom = {"udp", "trreq"}
+  InSideDom = {0, 1, 2, 3, 999}
+  EgSideDom = {0, 1, 2, 3, 999}
+  PeerDom = {FALSE}
   ExpDom = {FALSE}
   AuthDom <- AuthOK
-  AlertDom <- NoAlert
+  AlertDom <- AlertAll
   EpicDom <- EpicOK
 INVARIANTS TypeOK InvC01 InvC05 InvC06 InvC12 InvC13 InvC15 InvC15Answer InvPtr
 CONSTRAINT Emit
